@@ -14,20 +14,24 @@ from harness.props import c13 as H
 RULE = ("1-3 parameters (bool/int/float/str with width/sign suffix, scalar or array) at depth 0-3, each a definition or "
         "declaration followed by 0-6 typed/untyped modifications, interleaved; values from a boundary grid (0, -0.0, +-1, "
         "large, false, '', none); modification units absent / identical / same dimension (prefixed, compound, custom $unit) "
-        "/ other dimension; injected: type change, assignment after !constant, assignment to an undefined path, declared "
+        "/ other dimension / a unit on a unit-less definition; injected: type change, assignment after !constant, assignment to an undefined path, declared "
         "but never assigned. non-trivial = at least two modifications of one parameter or a unit conversion or an "
         "injected error; distinct = the text")
 ASSUMPTIONS = H.ASSUMPTIONS + [
-    "a modification carries a unit only when the first occurrence has one (a unit given to a unit-less definition is "
-    "silently dropped by the code; the property text does not say what it should mean, so such input is not judged)",
-    "`none` is assigned without a unit; modifications of bool/str nodes carry no unit; every modification line has a value",
+    "a numeric definition without unit is dimensionless: a later assignment with a unit is an assignment in another "
+    "dimension and must fail (repaired in f02572d; generated as the injected error class unit-on-unitless)",
+    "`none` is assigned without a unit (the code and the specification both ignore a unit behind none); every "
+    "modification line has a value; a unit behind a bool/str value is an error (repaired in 7e9dc17, injected class "
+    "unit-on-nonnumeric)",
     "`!constant` is written directly below the first occurrence of the parameter it protects",
     "unit conversion itself (magnitudes, dimension test) is the subject of C04 and enters as a parameter read from the "
     "live registry; an int parameter converted into its unit is compared numerically (the code stores a float)",
 ]
-EXPLANATION = ("theorems: for every program (all chain lengths, any hierarchy) the final node list equals the "
-               "specification: type/width/unit of the first occurrence, value of the last assignment converted into "
-               "the definition's unit; type change, other dimension, constant, undefined and never-assigned all fail")
+EXPLANATION = ("theorem C14_parse_refines_spec: for every program (all chain lengths, any hierarchy) the model's parse "
+               "and the declarative specification both succeed with the same parameters or both fail: type/width/"
+               "unit of the first occurrence, value of the last assignment converted into the definition's unit; "
+               "type change, other dimension, unit on a unit-less or non-numeric parameter, constant, undefined and "
+               "never-assigned all fail")
 
 COMP = ["g", "h", "box", "sim", "p-1", "out_2", "K"]
 LEAF = ["a", "b", "size", "energy", "flag", "name", "n", "t0", "w.x"]
@@ -125,6 +129,10 @@ def gen_program(rng):
         inj = "dimension"
     elif r < 0.19:
         inj = "undefined"
+    elif r < 0.26:
+        inj = "unitless"
+    elif r < 0.31:
+        inj = "nonnumeric"
     # interleave, keeping each parameter's own order
     order = []
     heads = [0] * len(events)
@@ -149,7 +157,7 @@ def render_program(rng, params, order, inj):
     features = set()
     mods_seen = {}
     n_mod_total = sum(1 for e in order if e[0] == "mod")
-    inj_at = rng.randrange(n_mod_total) if (inj in ("type", "dimension") and n_mod_total) else -1
+    inj_at = rng.randrange(n_mod_total) if (inj in ("type", "dimension", "unitless", "nonnumeric") and n_mod_total) else -1
     if inj == "undefined":
         inj_pos = rng.randrange(len(order) + 1)
     mod_idx = 0
@@ -241,22 +249,34 @@ def render_program(rng, params, order, inj):
                 fam = rng.choice([f for f in sorted(H.LIN_UNITS) if f != p.fam])
                 unit = rng.choice(H.LIN_UNITS[fam])
                 features.add("other-dimension")
+            unitless_err = False
+            if this == inj_at and inj == "unitless" and p.unit is None and p.ty in ("int", "float") and val is not None:
+                unit = rng.choice(H.LIN_UNITS[rng.choice(sorted(H.LIN_UNITS))])
+                unitless_err = True
+                features.add("unit-on-unitless")
+            if this == inj_at and inj == "nonnumeric" and p.ty in ("bool", "str") and val is not None and not typed:
+                unit = rng.choice(H.LIN_UNITS[rng.choice(sorted(H.LIN_UNITS))])
+                unitless_err = True
+                features.add("unit-on-nonnumeric")
             head = ""
+            mprec = muns = None
             if typed:
-                kw = H.gen_type(rng, mty)[0] if mty in ("int", "float") else mty
+                kw, mprec, muns = H.gen_type(rng, mty)
                 head += H.sp(rng) + kw + p.dims_text + rng.choice([" = ", "=", " ="]) + lit
             else:
                 head += rng.choice([" = ", " =", "  =  "]) + lit
             if unit:
                 head += H.sp(rng) + unit
             head += H.comment(rng, 0.3)
-            emit(p.path, head, ["assign", mty if typed else None, unit, H.to_json_val(val)])
+            emit(p.path, head, ["assign", mty if typed else None, unit, H.to_json_val(val), mprec, muns, p.dims])
             st = state[key]
             mods_seen[key] = mods_seen.get(key, 0) + 1
             if st["frozen"]:
                 error = True
                 features.add("constant")
             elif typed and mty != p.ty:
+                error = True
+            elif unitless_err:
                 error = True
             else:
                 nv = convert(p, unit, val)
@@ -301,7 +321,7 @@ def last_literal_class(v):
 def signature(c, impl, spec):
     feats = c.get("features", set())
     if isinstance(spec, str) and not isinstance(impl, str):
-        for f in ("type-change", "other-dimension", "constant", "undefined", "never-assigned"):
+        for f in ("type-change", "other-dimension", "unit-on-unitless", "unit-on-nonnumeric", "constant", "undefined", "never-assigned"):
             if f in feats:
                 return "c14:accepted:" + f
         return "c14:accepted"
@@ -339,6 +359,12 @@ CORPUS = [
     ("a float = 1 m\na = 3 s", "err"),
     ("a float = 1 m\n  !constant\na = 3", "err"),
     ("counts int", "err"),
+    ("a float = 1\na = 3 m", "err"),
+    ("a float = 1\na = 50 %", "err"),
+    ("a int\na int = 3 s", "err"),
+    ("a float = 1\na = 3", [["a", "float", 64, None, None, 3]]),
+    ("a str = x\na = y m", "err"),
+    ("a bool = true\na = false s", "err"),
     ("g\n  a float = 1 km\ng.a = 0 mm\ng\n     a = -1 m", [["g.a", "float", 64, None, "km", Fraction(-1, 1000)]]),
 ]
 
